@@ -519,6 +519,9 @@ class Interp:
                 return ('field', o, 'v', n)
             if isinstance(o, Obj):
                 return ('obj', o)
+            if isinstance(o, IV):
+                # pointers to scalars are transparent in this engine (&x evaluates to the value of x)
+                return ('val', o)
         if k == 'CXXMemberCallExpr':
             kind, name, did, obj = callee_of(n)
             f = self.idx.func_by_id.get(did) if did else None
@@ -761,6 +764,10 @@ class Interp:
                     return ('str', chr(b.lo & 0xFF) * a.lo)       # std::string(count, ch)
             if not real and _is_string_type(dqt(n)):
                 return ('str', '')
+            if not real and _re.match(r'^(const )?std::vector<', dqt(n) or qt(n)):
+                return Vec([])
+            if len(real) == 1 and False:
+                pass
             return ('temp', qt(n))
         if k == 'UnaryExprOrTypeTraitExpr':
             at = (n.get('argType') or {}).get('qualType')
@@ -1198,6 +1205,16 @@ class Interp:
                 if name in ('push_back', 'emplace_back'):
                     o.items.append(self.consume(self.expr(args[0], env), env))
                     return None
+                if name == 'at':
+                    iv = self.expr(args[0], env)
+                    if not (isinstance(iv, IV) and iv.concrete()):
+                        raise NeedSplit(None, 'index of at() not concrete at %s' % pos(n))
+                    if not 0 <= iv.lo < len(o.items):
+                        raise Thrown('std::out_of_range')
+                    return o.items[iv.lo]
+                if name == 'clear':
+                    del o.items[:]
+                    return None
                 raise AnalysisBroken('unmodelled vector operation %s at %s' % (name, pos(n)))
             if isinstance(o, dict):
                 if name in ('find', 'end', 'cend'):
@@ -1236,6 +1253,17 @@ class Interp:
                 if isinstance(a, IV) and a.concrete() and isinstance(b, IV) and b.concrete():
                     self.store(self.lval(obj, env), ('str', chr(b.lo & 0xFF) * a.lo), env)     # assign(count, ch)
                     return None
+            if isinstance(o, tuple) and o and o[0] == 'str' and name == 'pop_back' and not args:
+                if not o[1]:
+                    self.ub_event('pop_back()-on-empty-string', n)
+                    raise Thrown('undefined behaviour: pop_back() on an empty string')
+                self.store(self.lval(obj, env), ('str', o[1][:-1]), env)
+                return None
+            if isinstance(o, tuple) and o and o[0] == 'str' and name in ('back', 'front') and not args:
+                if not o[1]:
+                    self.ub_event('%s()-on-empty-string' % name, n)
+                    raise Thrown('undefined behaviour: %s() on an empty string' % name)
+                return const(8, True, ord(o[1][-1 if name == 'back' else 0]) if ord(o[1][-1 if name == 'back' else 0]) < 128 else ord(o[1][-1 if name == 'back' else 0]) - 256)
             if isinstance(o, tuple) and o and o[0] in ('str', 'cat', 'opaque', 'num') and name == 'clear':
                 self.store(self.lval(obj, env), ('str', ''), env)
                 return None
